@@ -899,10 +899,12 @@ def _strace_ok():
 
 def check_C08(replay=None):
     chk = Check("C08", level="fault_enumeration")
-    chk.rule = ("fault point = (source whose out-of-range label reference sits at statement position p for each PC-relative instruction, or a valid source) x destination in {absent, existing file, /dev/full, path in a missing directory}; "
+    chk.rule = ("fault point = (source whose out-of-range label reference sits at statement position p for each PC-relative instruction, or a valid source) x destination in {absent, existing file, existing longer object, /dev/full, path in a missing directory, "
+                "name that is not UTF-8, long multi-byte name, stdout that accepts no data, regular file that cannot be written (RLIMIT_FSIZE = 0)}; "
                 "`lace compile src dest` of the real binary runs under strace; Trace_Cli!AtomicOk requires exit 0 => destination holds exactly the object bytes, exit != 0 => destination bytes unchanged, and no open(O_CREAT|O_TRUNC) of "
                 "the destination before assembly succeeded. distinct = (source, destination kind) pairs")
-    chk.assumptions = ["write faults are injected with /dev/full and an uncreatable path; partial writes to a regular file on a full disk are not injected"]
+    chk.assumptions = ["write faults are injected with /dev/full, an uncreatable path and a process that may not write to regular files at all (RLIMIT_FSIZE = 0, standing in for a full disk); "
+                       "a write that succeeds for the first k bytes and then fails is not injected separately (the command issues one write_all)"]
     vlib.build(need_cli=True)
     thorough = chk.tier == "thorough"
     d, man = _files(chk, "atomic", 0)
@@ -912,6 +914,9 @@ def check_C08(replay=None):
     jobs = [(c, dk) for c in man for dk in ("absent", "file", "longer", "devfull", "nodir")]
     # the shape of the destination's NAME and the state of stdout must not matter either (every 3rd source each)
     jobs += [(c, dk) for i, c in enumerate(man) for dk in ("nonutf8", "longutf8", "absent-outfull", "file-outfull") if i % 3 == 0]
+    # a REGULAR destination that cannot be completely written: the process may not write a single byte to a regular file
+    # (RLIMIT_FSIZE = 0, SIGXFSZ ignored: write() fails with EFBIG as it would with ENOSPC on a full disk)
+    jobs += [(c, dk) for i, c in enumerate(man) for dk in ("absent-fsize", "file-fsize") if i % 3 != 2]
 
     def atomic(job):
         c, dk = job
@@ -938,9 +943,9 @@ def check_C08(replay=None):
             dest = os.fsencode(base) + b"\xff\xfe.lc3"          # a file name that is not valid UTF-8
         elif dk == "longutf8":
             dest = base + "\u00e9" * 45 + ".lc3"                 # long, multi-byte characters all along
-        elif dk == "absent-outfull":
+        elif dk in ("absent-outfull", "absent-fsize"):
             dest = base + ".lc3"
-        elif dk == "file-outfull":
+        elif dk in ("file-outfull", "file-fsize"):
             dest = base + ".lc3"
             open(dest, "wb").write(old)
         else:
@@ -952,9 +957,17 @@ def check_C08(replay=None):
         opens = -1
         sink = open("/dev/full", "wb") if dk.endswith("-outfull") else _sp.PIPE
         marker = os.path.basename(base) + "."          # every spelling of the destination starts with it; the source's name does not
+        def no_file_writes():
+            import resource, signal
+            signal.signal(signal.SIGXFSZ, signal.SIG_IGN)
+            resource.setrlimit(resource.RLIMIT_FSIZE, (0, 0))
+        fsize = dk.endswith("-fsize")
         for attempt in (60, 600):
             try:
-                if use_strace:
+                if fsize:
+                    # (not under strace: its own log is a regular file)
+                    code = _sp.run([vlib.LACE_BIN] + argv, stdout=sink, stderr=_sp.PIPE, cwd=WORK, timeout=attempt, preexec_fn=no_file_writes).returncode
+                elif use_strace:
                     r = _sp.run(["strace", "-f", "-e", "trace=openat,creat,open", "-o", log, vlib.LACE_BIN] + argv, stdout=sink, stderr=_sp.PIPE, cwd=WORK, timeout=attempt)
                     code = r.returncode
                     opens = 0
@@ -971,10 +984,13 @@ def check_C08(replay=None):
         if sink is not _sp.PIPE:
             sink.close()
         after = list(open(dest, "rb").read()) if dk != "devfull" and os.path.exists(dest) else [-1]
+        # nothing else may be left behind next to the destination either (temporary files)
+        litter = sorted(n for n in os.listdir(os.path.dirname(base)) if n.startswith(marker) and os.path.join(os.path.dirname(base), n) != (dest if isinstance(dest, str) else "")
+                        and not n.endswith(".strace") and "_missing_dir" not in n) if fsize else []
         if dk == "devfull":
             after = before = [-2]
         return {"ev": "atomic", "tag": c["tag"] + ":" + dk, "ast": c["ast"], "stack": c["stack"], "dest": dk, "code": code,
-                "before": before, "after": after, "opens": opens, "src": c["src"]}
+                "before": before, "after": after, "opens": opens, "litter": len(litter), "src": c["src"]}
     events = parallel(atomic, jobs, 8)
     _cli_validate(chk, events, "atomic")
     chk.distinct = max(chk.distinct, 2)
@@ -1174,9 +1190,16 @@ def check_C05(replay=None):
     def gen(job):
         name, args = job
         out = _wpath("c05_%s.ndjson" % name)
-        summ = harness(["gen", "asm"] + args + ["--out", out], timeout=1500)
+        try:
+            summ = harness(["gen", "asm"] + args + ["--out", out], timeout=1500)
+        except vlib.HarnessHang as h:
+            return out, {"hang": h.case}, None           # "loops forever" is one of the things C05 rules out
         return out, summ, tlc_trace("Trace_Tok", out, timeout=2400)
     for out, summ, res in parallel(gen, jobs, 8):
+        if res is None:
+            chk.violation("hang", "assembling %r does not terminate (still running after the watchdog limit)" % summ["hang"][:200],
+                          {"family": "asm", "events": [{"ev": "hang", "src": summ["hang"]}]})
+            continue
         chk.add_trace(res, res["nrec"])
         chk.evaluations += res["nrec"]
         if res["consumed"] != res["nrec"]:
